@@ -184,6 +184,25 @@ theorem step_sim (e1 e2 : Env) (w1 w2 : World) (op : Op) (hw : Wrel w1 w2) (hop 
     simp only [Orel]
     rw [Hasher.finalize_abs _ wd p1.2, Hasher.finalize_abs _ wd p2.2, p1.1, p2.1, a1.1, a2.1]
 
+  | writes h ws =>
+    rcases Wrel_get w1 w2 hw h with ⟨h1, h2⟩ | ⟨x, y, h1, h2, hr⟩
+    · simp only [step, h1, h2]; exact ⟨hw, rfl⟩
+    · have a1 := Hasher.foldl_append_abs ws x.h hr.2.2.1
+      have a2 := Hasher.foldl_append_abs ws y.h hr.2.2.2
+      simp only [step, h1, h2]
+      exact ⟨Wrel_put _ _ hw h _ _ ⟨hr.1, by rw [a1.1, a2.1, hr.2.1], a1.2, a2.2⟩, rfl⟩
+  | hashOne key ws =>
+    obtain ⟨x, hx, hxa, b1, hb1⟩ := construct_ok e1 .auto trivial false false (Hasher.new · key) (new_total key)
+    obtain ⟨y, hy, hya, b2, hb2⟩ := construct_ok e2 .auto trivial false false (Hasher.new · key) (new_total key)
+    have a1 := Hasher.new_abs b1 key x.h hb1
+    have a2 := Hasher.new_abs b2 key y.h hb2
+    have p1 := Hasher.foldl_append_abs ws x.h a1.2
+    have p2 := Hasher.foldl_append_abs ws y.h a2.2
+    simp only [step, hx, hy]
+    refine ⟨hw, ?_⟩
+    simp only [Orel]
+    rw [Hasher.finalize64_abs _ p1.2, Hasher.finalize64_abs _ p2.2, p1.1, p2.1, a1.1, a2.1]
+
 /-- outputs of two runs, pointwise related -/
 def Orels : List Out → List Out → Prop
   | [], [] => True
